@@ -2,6 +2,7 @@ import struct
 import numpy as np
 
 from .read import SgzReader
+from .version import SeismicZfpVersion
 from .utils import pad, int_to_bytes, np_float_to_bytes, np_float_to_bytes_signed, coord_to_index
 from .sgzconstants import DISK_BLOCK_BYTES, SEGY_TEXT_HEADER_BYTES
 
@@ -80,10 +81,11 @@ class SgzCropper(SgzReader):
         header[8:12] = int_to_bytes(len_xlines)
         header[12:16] = int_to_bytes(len_ilines)
         header[16:20] = np_float_to_bytes_signed(np.int32(self.zslices[zslices_index_range[0]]))
-        header[20:24] = np_float_to_bytes(np.int32(self.xlines[xline_index_range[0]]))
-        header[24:28] = np_float_to_bytes(np.int32(self.ilines[iline_index_range[0]]))
+        header[20:24] = np_float_to_bytes_signed(np.int32(self.xlines[xline_index_range[0]]))
+        header[24:28] = np_float_to_bytes_signed(np.int32(self.ilines[iline_index_range[0]]))
         header[56:60] = int_to_bytes(compressed_data_length_diskblocks)
         header[60:64] = int_to_bytes((len_xlines * len_ilines * 32) // 8)
+        header[68:72] = int_to_bytes(len_xlines * len_ilines)
 
         # We need to inform the SEG-Y binary header what has happened to the trace length, otherwise
         # segyio will get all confused if attempting to read the cropped SGZ converted back to SEG-Y
@@ -98,6 +100,27 @@ class SgzCropper(SgzReader):
             return None
         return (coord_to_index(coord_range[0], coord_list, include_stop=True),
                 coord_to_index(coord_range[1], coord_list, include_stop=True))
+
+    def read_block_range(self, iline_index_range, xline_index_range, zslices_index_range):
+        """Copies whole disk blocks: the (corrected) bounds are block-aligned, so for any blockshape
+        the cropped data section consists of complete blocks of the source, in block order"""
+        first_il_block = iline_index_range[0] // self.blockshape[0]
+        first_xl_block = xline_index_range[0] // self.blockshape[1]
+        first_z_block = zslices_index_range[0] // self.blockshape[2]
+        n_il_blocks = pad(iline_index_range[1], self.blockshape[0]) // self.blockshape[0] - first_il_block
+        n_xl_blocks = pad(xline_index_range[1], self.blockshape[1]) // self.blockshape[1] - first_xl_block
+        n_z_blocks = pad(zslices_index_range[1], self.blockshape[2]) // self.blockshape[2] - first_z_block
+        source_xl_blocks = self.shape_pad[1] // self.blockshape[1]
+        source_z_blocks = self.shape_pad[2] // self.blockshape[2]
+        buffer = bytearray(n_il_blocks * n_xl_blocks * n_z_blocks * self.block_bytes)
+        for i in range(n_il_blocks):
+            for x in range(n_xl_blocks):
+                # The blocks of one (inline block, crossline block) column are contiguous: one read per column
+                block_start = ((first_il_block + i) * source_xl_blocks + first_xl_block + x) * source_z_blocks + first_z_block
+                buf_start = (i * n_xl_blocks + x) * n_z_blocks * self.block_bytes
+                buffer[buf_start:buf_start + n_z_blocks * self.block_bytes] = self.loader._get_compressed_bytes(
+                    block_start * self.block_bytes, n_z_blocks * self.block_bytes)
+        return buffer
 
     def write_cropped_file_by_coords(self, out_file,
                                      iline_coord_range=None,
@@ -163,15 +186,18 @@ class SgzCropper(SgzReader):
                                                                                                   xline_index_range,
                                                                                                   zslices_index_range)
 
-        z_units = (pad(zslices_index_range[1], self.blockshape[2]) - zslices_index_range[0]) // 4
-        xl_units = (xline_index_range[1] - xline_index_range[0]) // 4
-        il_units = (iline_index_range[1] - iline_index_range[0]) // 4
-
         header = self.regenerate_header(iline_index_range, xline_index_range, zslices_index_range)
-        compressed_bytes = self.loader.read_chunk_range(iline_index_range[0],
-                                                        xline_index_range[0],
-                                                        zslices_index_range[0],
-                                                        il_units, xl_units, z_units)
+        if self.blockshape[0] == 4 and self.blockshape[1] == 4:
+            # The upper bounds may have been clipped to the cube, so count the units up to the padded bound
+            z_units = (pad(zslices_index_range[1], self.blockshape[2]) - zslices_index_range[0]) // 4
+            xl_units = (pad(xline_index_range[1], 4) - xline_index_range[0]) // 4
+            il_units = (pad(iline_index_range[1], 4) - iline_index_range[0]) // 4
+            compressed_bytes = self.loader.read_chunk_range(iline_index_range[0],
+                                                            xline_index_range[0],
+                                                            zslices_index_range[0],
+                                                            il_units, xl_units, z_units)
+        else:
+            compressed_bytes = self.read_block_range(iline_index_range, xline_index_range, zslices_index_range)
         with open(out_file, 'wb') as new_sgz_file:
             new_sgz_file.write(header)
             new_sgz_file.write(compressed_bytes)
@@ -181,4 +207,8 @@ class SgzCropper(SgzReader):
                 header_array = self.variant_headers[k].reshape((self.n_ilines, self.n_xlines)).astype(np.int32)
                 cropped_header_array = header_array[iline_index_range[0]:iline_index_range[1],
                                                     xline_index_range[0]:xline_index_range[1]]
-                new_sgz_file.write(cropped_header_array.flatten().tobytes())
+                header_array_bytes = cropped_header_array.flatten().tobytes()
+                if self.file_version > SeismicZfpVersion("0.2.1"):
+                    # Readers of these versions expect every array padded to a multiple of 512 bytes
+                    header_array_bytes += bytes(-len(header_array_bytes) % 512)
+                new_sgz_file.write(header_array_bytes)
